@@ -1,10 +1,12 @@
 /-
 Line-protocol driver for the sequential-simulation model (property C17).
 
-request:  sim <R|F> <de|ed> <nPre> <nPer> <nCols> ; <section> ; <section> ...
+request:  sim <R|F> <de|ed> <nPre> <nPer> <nCols> [<parameters_from_data -|0|1> <shocks_from_data -|0|1>] ; <section> ; ...
   sections   E <lhsRow> <None|Log|Diff|DiffLog|Roc|Pct> <identity 0|1> <resRow> <prefix expression>
              P <lhsRow> <column> <None|Log|Diff|DiffLog|Roc|Pct|Flat> <when_data 0|1> <shift> <targetRow|->
              D <row> <v0> ... <v_{nCols-1}>          (values `num/den`, `nan`)
+             Dp <row> <model value> <v0> ...          (parameter row: the model's value and the databox item of that name)
+             Dr <row> <v0> ...                        (residual row: the databox item; the model applies the two options)
              O <row> <row> ...                        (rows to print)
   prefix expression tokens:  c <num/den> | v <row> <shift> | n e | + e e | - e e | * e e | / e e | f <k> e
   mode R = exact rationals, F = IEEE doubles (replies are the 64 bits of each double)
@@ -79,7 +81,11 @@ structure Case (β : Type) where
   data : List (Nat × Array (V β)) := []
   out : List Nat := []
 
-def parseSection {β : Type} (cd : Codec β) (nCols : Nat) (c : Case β) (ws : List String) : Option (Case β) :=
+def flag? : String → Option (Option Bool)
+  | "-" => some none | "0" => some (some false) | "1" => some (some true) | _ => none
+
+def parseSection {β : Type} [Carrier β] (cd : Codec β) (nCols : Nat) (pfd sfd : Option Bool) (c : Case β) (ws : List String) :
+    Option (Case β) :=
   match ws with
   | "E" :: lhs :: tr :: ident :: res :: toks =>
     match lhs.toNat?, lhsT? tr, res.toNat?, parseExpr cd (toks.length + 1) toks with
@@ -102,6 +108,20 @@ def parseSection {β : Type} (cd : Codec β) (nCols : Nat) (c : Case β) (ws : L
   | "D" :: row :: vals =>
     match row.toNat?, vals.mapM cd.parse with
     | some row, some vs => if vs.length = nCols then some { c with data := c.data ++ [(row, vs.toArray)] } else none
+    | _, _ => none
+  | "Dp" :: row :: mv :: vals =>       -- a parameter row: the model's value, then what the databox holds under that name
+    match row.toNat?, cd.parse mv, vals.mapM cd.parse with
+    | some row, some mv, some vs =>
+      if vs.length = nCols then
+        some { c with data := c.data ++ [(row, (vs.map (initialCell .parameter pfd sfd mv)).toArray)] }
+      else none
+    | _, _, _ => none
+  | "Dr" :: row :: vals =>             -- a residual row: what the databox holds under the residual's name
+    match row.toNat?, vals.mapM cd.parse with
+    | some row, some vs =>
+      if vs.length = nCols then
+        some { c with data := c.data ++ [(row, (vs.map (initialCell .residual pfd sfd V.nan)).toArray)] }
+      else none
     | _, _ => none
   | "O" :: rows =>
     match rows.mapM (fun (s : String) => s.toNat?) with
@@ -167,10 +187,10 @@ def runCase {β : Type} [Carrier β] (cd : Codec β) (exact : Bool) (order : Str
     "ok " ++ flags ++ " " ++ tags ++ " " ++ (if closed then "C" else "N") ++ " " ++ extent ++ " ; " ++ " ; ".intercalate rows
 
 def runWith {β : Type} [Carrier β] (cd : Codec β) (exact : Bool) (order : String) (nPre nPer nCols : Nat)
-    (sections : List String) : String :=
+    (pfd sfd : Option Bool) (sections : List String) : String :=
   let rec go (c : Case β) : List String → Option (Case β)
     | [] => some c
-    | s :: rest => match parseSection cd nCols c (words s) with
+    | s :: rest => match parseSection cd nCols pfd sfd c (words s) with
       | some c' => go c' rest
       | none => none
   match go {} sections with
@@ -206,14 +226,18 @@ def step (line : String) : String :=
   match line.splitOn ";" with
   | head :: sections =>
     match words head with
-    | ["sim", mode, order, nPre, nPer, nCols] =>
-      match nPre.toNat?, nPer.toNat?, nCols.toNat? with
-      | some nPre, some nPer, some nCols =>
+    | "sim" :: mode :: order :: nPre :: nPer :: nCols :: opts =>
+      let flags : Option (Option Bool × Option Bool) := match opts with
+        | [] => some (none, none)
+        | [a, b] => (do let a ← flag? a; let b ← flag? b; pure (a, b))
+        | _ => none
+      match nPre.toNat?, nPer.toNat?, nCols.toNat?, flags with
+      | some nPre, some nPer, some nCols, some (pfd, sfd) =>
         if order ≠ "de" ∧ order ≠ "ed" then "bad-op"
-        else if mode = "R" then runWith ratCodec true order nPre nPer nCols sections
-        else if mode = "F" then runWith floatCodec false order nPre nPer nCols sections
+        else if mode = "R" then runWith ratCodec true order nPre nPer nCols pfd sfd sections
+        else if mode = "F" then runWith floatCodec false order nPre nPer nCols pfd sfd sections
         else "bad-op"
-      | _, _, _ => "bad-op"
+      | _, _, _, _ => "bad-op"
     | _ => "bad-op"
   | [] => "bad-op"
 
